@@ -198,21 +198,35 @@ CLAIMED = {
         technique="Lean 4 proof (glue + filter-bank theorems) + contract validation of PyWavelets by exact-rational correspondence",
         design="DESIGN.md §3 C10, §9"),
     "C14": dict(
-        text="Lean 4 theorems: solver selection about the decision function the translator extracts from _get_alg "
-             "(Gen/C14Select.lean: select_default, select_named, rejects_iff, select_total); the set-ups written once generically "
-             "and reasoned about over real inner-product spaces: obj_expand, cgSys_cgRhs_eq_normal, cg_normal_eq, "
+        text="Lean 4 theorems about definitions REGENERATED from sigpy/app.py on every run: the decision function of _get_alg "
+             "(Gen/C14Select.lean: select_default, select_named, rejects_iff, select_total) and the four set-ups "
+             "_get_ConjugateGradient / _get_GradientMethod / _get_PrimalDualHybridGradient / _get_ADMM (Gen/C14Setup.lean: cgArgs, "
+             "gmArgs, pdhgArgsNoG/G, admmArgsNoG/G = the arguments handed to the solver classes — system operator and right-hand "
+             "side, the closures gradf / minL_x / minL_v as functions of the captured state, the operator given to MaxEig, the "
+             "alpha / tau / sigma rules, the prox trees L2Reg/Conj/Stack/NoOp, gammas, Vstack([A,G]) and its adjoint, the ADMM "
+             "constraint (G or I, -I, 0) — as terms over an operator/vector/prox vocabulary with the source's branch structure, "
+             "produced by a symbolic executor with if-conversion and in-place/aliasing tracking). Bridging lemmas (cgArgs_sys, "
+             "cgArgs_rhs, gm_gradient, gmArgs_eig, gmArgs_alpha, pdhgArgs_parts_noG/_G, pdhgArgs_steps, pdhgArgs_eig_noG/_G, "
+             "admmArgs_noG/_G) give their closed forms over real inner-product spaces (proved up to module/ring normalisation, so "
+             "commuted sums or temporaries in the source do not alarm); on them: cgSys_cgRhs_eq_normal, cg_normal_eq, "
              "cg_unique_minimiser (the CG system is the stationarity condition and its solution the unique global minimiser for "
-             "every routing of lamda and z), gm_gradient, gmEigOp_eq_hessian, gm_fixed_point_iff_minimiser, prox identities "
-             "(data_conj_biconj: the dual prox L2Reg(1, -y) is the conjugate of 1/2||v-y||^2; conj_fixed_point), "
-             "pdhg_fixed_point_kkt_noG/_G and admm_fixed_point_kkt_noG/_G (fixed points of the PDHG / ADMM set-ups are exactly the "
-             "KKT points of the documented objective for every (lamda, z, proxg, G) case), kkt_is_minimiser. Tie: translator + "
-             "recording subclasses patched into sigpy.app compare every operator / rhs / gradf / prox / gamma / step / closure the "
-             "real set-up builds with the model (1e-12), the real app stepped update by update against exact-rational machines "
-             "(1e-9), 336 option combinations of the constructor against the decision table, byte snapshots of y and z.",
-        note="Trusted: Lean kernel; translator gen_c14; NOT proved: convergence of the solver classes to those fixed points (C12/C13), "
-             "complex data, floating point, the power-method eigenvalue estimate of the default steps; that the real set-up equals "
-             "the model is the correspondence. The objective-gap oracle treats a still-shrinking gap as inconclusive (no alarm).",
-        technique="Lean 4 proof (normal equations, conjugates, KKT fixed points) + translator + step-by-step differential correspondence",
+             "every routing of lamda and z), gmEigOp_eq_hessian, gm_fixed_point_iff_minimiser, prox identities (data_conj_biconj, "
+             "conj_fixed_point, l2reg_is_prox), pdhg_fixed_point_kkt_noG/_G and admm_fixed_point_kkt_noG/_G (fixed points of the "
+             "PDHG / ADMM set-ups are exactly the KKT points of the documented objective for every (lamda, z, proxg, G) case), "
+             "kkt_is_minimiser, and default_steps (default_steps_gm: alpha = 1/max_eig with L = max_eig satisfies 0 < alpha, "
+             "alpha*L <= 1 and the descent lemma = the hypotheses of C13's ista/fista rates; default_steps_pdhg_primal/dual_noG/_G: "
+             "tau*sigma*||K x||^2 <= ||x||^2 for the K handed to the solver) under the hypothesis that max_eig bounds the Rayleigh "
+             "quotient of the operator the generated set-up hands to MaxEig. Tie: the translator, plus the driver executing the "
+             "generated definitions over exact rationals against recording subclasses patched into sigpy.app (every operator / rhs "
+             "/ gradf / prox / gamma / step / closure, 1e-12), the real app stepped update by update against exact-rational machines "
+             "carrying the generated set-ups (1e-9), 336 option combinations of the constructor against the decision table, byte "
+             "snapshots of y and z.",
+        note="Trusted: Lean kernel; translator gen_c14 (its reading of linop/prox constructors: Identity, Multiply(shape, scalar), "
+             "Vstack, .H, .N, operator +,*; Prox.__call__ of L2Reg/Conj/Stack transcribed in Model/C14Base.lean — the prox classes are "
+             "C11's subject); NOT proved: convergence of the solver classes to those fixed points (C12/C13), complex data, floating "
+             "point, the power method's UNDER-estimate of max_eig after finitely many iterations (default_steps assumes a Rayleigh "
+             "bound). The objective-gap oracle treats a still-shrinking gap as inconclusive (no alarm).",
+        technique="Lean 4 proof (normal equations, conjugates, KKT fixed points, step conditions) about translator-generated set-ups + step-by-step differential correspondence",
         design="DESIGN.md §3 C14, §9"),
     "C08": dict(
         text="Lean 4 theorems about the formulas and branch choices the translator extracts from sigpy/conv.py "
